@@ -86,7 +86,7 @@ PROPS["C16"] = {
 
 COORD_MODELLED = ["threadpool 1.8 (FIFO job queue, n workers) and std mpsc (no loss) - the model delivers any in-flight result next, the executable simulator the first n in spawn order",
                   "what a pass computes is abstract in the theorems (World.result: ok / hasDeps / err; render); M5 ties passes to the code",
-                  "directory scan tasks are not part of the proved coordinator model (inputs are files); scanning is covered by the whole-run model and M5/M8",
+                  "directory scan tasks are a proved layer on top of the file coordinator (Coord.SSt / SReach: execute_directory with the scheduled-directory set, shared counters), tied to the code by the M6-scan trace correspondence with 16 threads (all in-flight tasks enabled)",
                   "real preemption between file-system calls of two running tasks is not modelled (the invariants show concurrently running final passes touch different outputs)"]
 COORD_TB = ["M6 trace correspondence: the real coordinator under the schedule controller (verif hooks) vs the Lean coordinator model on every explored delivery order: enabled set, tasks spawned by each delivery, verdict",
             "direct oracles on the real outputs of every explored run (bytes vs sequential processing, verdict, exactly-once starts, marker order)"]
@@ -101,11 +101,11 @@ PROPS["C02"] = {
     "assumptions": ["commands terminate; a pass reads only its declared dependencies (RenderLocal)"],
 }
 PROPS["C03"] = {
-    "jobs": [{"cmd": "c03", "shards": 16}],
+    "jobs": [{"cmd": "c03", "shards": 16}, {"cmd": "c03d", "shards": 16}],
     "cli": False, "trusted_base": COORD_TB, "modelled": COORD_MODELLED,
-    "level_text": "Lean theorems: done == total iff nothing is in flight; no deadlock; at most 2|U| deliveries over any finite universe (termination under every schedule, cyclic or not); success implies every seen file finished; finished list, seen list and pool are duplicate-free and a finished file never gets a task again (exactly once); the unwrap in notify_finish cannot fail. All delivery orders of all digraphs (cyclic included) on <= 3 files with duplicate inputs are explored on the real coordinator; task starts and command markers are counted.",
+    "level_text": "Lean theorems: done == total iff nothing is in flight; no deadlock; at most 2|U| deliveries over any finite universe (termination under every schedule, cyclic or not); success implies every seen file finished; finished list, seen list and pool are duplicate-free and a finished file never gets a task again (exactly once); the unwrap in notify_finish cannot fail; with directory scan tasks: the exit test on the shared counters holds iff neither a file task nor a scan is in flight, every directory is scanned at most once (also under symbolic-link loops), and files found by scanning obey the same invariant. All delivery orders of all digraphs (cyclic included) on <= 3 files with duplicate inputs are explored on the real coordinator; task starts and command markers are counted.",
     "design_ref": "5 C03, 4.7",
-    "level_note": "The bound is stated relative to the number of files ever seen; directory scanning (bounded by the F4 repair) and path aliases are exercised end to end (C11 / whole-run model), not in the proved coordinator model.",
+    "level_note": "The delivery bound is stated relative to the number of files ever seen and the number of distinct directories; path aliases are exercised end to end (schedule worlds spell files in several ways; C11).",
     "technique": "Lean 4 proof (accounting invariant + step-counting termination) + exhaustive schedule exploration as correspondence",
     "assumptions": ["commands terminate", "no worker thread panics (C18)"],
 }
